@@ -3,6 +3,7 @@
 //
 //   rd <KIND> <opt 0|1> <strict 0|1> <hex token bytes> <hex context bytes (delimiter context + rest)>
 //        -> R sev=<NAME> val=<V> pos=<n> eof=<b> fail=<b> w=<hex of STEPwrite> s=<hex of asStr>
+//   sq <KIND> <opt> <hex STRING token> <hex bytes>   read a STRING attribute, the `,`, then a <KIND> attribute from one stream
 //   ag <KIND> <hex bytes>      read the bytes as a required LIST OF <KIND> attribute: severity, element values, stream
 //   wr <KIND> <value>          value: INTEGER decimal | REAL/NUMBER 16-hex-digit IEEE bits | STRING/BINARY hex content
 //                                     | BOOLEAN/LOGICAL/ENUM element name | REF file id
@@ -204,6 +205,25 @@ int main() {
             STEPattribute * a = attrOf( kind, opt );
             if( !a || h2.empty() || !unhex( h, bytes ) || !unhex( h2, ctx ) ) { std::cout << "bad-op\n"; continue; }
             std::cout << doRead( a, bytes + ctx, strict != 0 ) << "\n";
+        } else if( cmd == "sq" ) {
+            // sq <KIND> <opt> <hex STRING token> <hex bytes>: on ONE stream holding <STRING token> `,` <bytes>, read the STRING
+            // attribute, take the `,` with in.get(), then read the <KIND> attribute: the second read starts in the middle of the
+            // stream, with the skipws flag as SDAI_String::STEPread left it
+            std::string kind, h, h2, first, bytes; int opt = 0;
+            ls >> kind >> opt >> h >> h2;
+            STEPattribute * s = attrOf( "STRING", 0 );
+            STEPattribute * a = attrOf( kind, opt );
+            if( !a || !s || h2.empty() || !unhex( h, first ) || !unhex( h2, bytes ) ) { std::cout << "bad-op\n"; continue; }
+            std::istringstream in( first + "," + bytes );
+            Severity s1 = s->STEPread( in, mgr, 0, 0, true );
+            in.get();
+            Severity sv = a->STEPread( in, mgr, 0, 0, true );
+            bool e = in.eof(), f = in.fail();
+            in.clear();
+            long pos = ( long )in.tellg();
+            std::ostringstream o;
+            o << "R first=" << sevName( s1 ) << " sev=" << sevName( sv ) << " val=" << valueOf( a ) << " pos=" << pos << " eof=" << e << " fail=" << f;
+            std::cout << o.str() << "\n";
         } else if( cmd == "ag" ) {
             // ag <KIND> <hex bytes>: STEPattribute::STEPread of a required LIST OF <KIND> attribute on the bytes
             std::string kind, h, bytes;
